@@ -280,6 +280,10 @@ func (r *Run) Finish(level string, rule string) {
 
 // RacePass folds the reports of the separate free-running -race pass (written by the race
 // runtime to files named by VERIF_RACE_LOGS) into this run: a data race is a violation.
+// RaceKey, if set by a property, maps a race report to a stable key (call-site class) before
+// the default "first two source lines" key is used; "" = use the default.
+var RaceKey func(rep string) string
+
 func (r *Run) RacePass() {
 	prefix := os.Getenv("VERIF_RACE_LOGS")
 	if prefix == "" {
@@ -315,6 +319,15 @@ func (r *Run) RacePass() {
 			}
 			if len(locs) == 0 {
 				continue // a race inside the harness itself, not in the repository
+			}
+			if RaceKey != nil {
+				if k := RaceKey(rep); k != "" {
+					if len(rep) > 2500 {
+						rep = rep[:2500]
+					}
+					r.Violation(k, "the free-running -race pass reports a data race at "+strings.Join(locs, " / "), map[string]interface{}{"report": rep})
+					continue
+				}
 			}
 			if len(rep) > 2500 {
 				rep = rep[:2500]
